@@ -12,10 +12,10 @@ RULE = ("each logical call (engine, sequences[, query], k, mode) is executed for
         "coordinates; every invalid-argument class must raise on every engine; non-trivial = expected set non-empty")
 ASSUMPTIONS = ["two-collection calls vary one container at a time (star) plus both-permuted, not the full 7x7 product",
                "an invalid argument is 'rejected' when any exception is raised"]
-REQUIRED_CLASSES = {"all": ["series-permuted-labels", "series-shifted-labels", "coo-output", "ndarray-output", "invalid-argument", "non-square-matrix", "non-integer-distances", "asymmetric-result", "more-queries-than-references"]}
+REQUIRED_CLASSES = {"all": ["series-permuted-labels", "series-shifted-labels", "coo-output", "ndarray-output", "invalid-argument", "non-square-matrix", "non-integer-distances", "asymmetric-result", "more-queries-than-references", "radius-3-and-4-in-every-container", "invalid-argument-with-a-lone-sequence"]}
 MIN_OUTCOMES = 10
 
-CONTAINERS = ("list", "tuple", "ndarray", "series", "series_shift", "series_perm", "series_str")
+CONTAINERS = ("list", "tuple", "ndarray", "series", "series_shift", "series_perm", "series_str", "ndarray_object")
 OUTPUTS = ("triplets", "coo_matrix", "ndarray")
 MODES = ("lev", "hamming", "halflev", "mixedlev")
 SELF_ENG = ("nearest_neighbor", "symdel", "hash_based", "kdtree")
@@ -33,6 +33,8 @@ def box(seqs, container):
         return tuple(seqs)
     if container == "ndarray":
         return np.array(seqs, dtype=object) if False else np.array(seqs)
+    if container == "ndarray_object":
+        return np.array(seqs + [None], dtype=object)[:n]       # object dtype (item size = pointer size), not a fixed-width string array
     if container == "series":
         return pd.Series(seqs)
     if container == "series_shift":
@@ -139,6 +141,7 @@ def check_output(res, out, expected, nrow, ncol, self_mode):
 INVALID = (
     ("empty-input", dict(seqs=())),
     ("non-string-first", dict(seqs=(1, "A"))),
+    ("non-string-lone", dict(seqs=(5,))),
     ("non-string-middle", dict(seqs=("A", None, "C"))),
     ("non-string-last", dict(seqs=("A", "C", 2.5))),
     ("non-string-bytes", dict(seqs=("A", b"C"))),
@@ -172,6 +175,7 @@ def spaces(tier):
     def gen_self():
         for seqs in E.lists(U2, 3 if q else 4):
             yield ("self", seqs)
+        yield ("self-sparse", ("ACDE", "AFGH", "WWWW", "ACD", "", "ACDEFGHIK", "AFGHEFGHIK"))
 
     def gen_maxret():
         for seqs in E.lists(U2, 4, minlen=3):
@@ -229,6 +233,17 @@ def check_case(case, acc):
                         continue
                     for out in OUTPUTS:
                         for cont in (CONTAINERS if mode in ("lev", "hamming") else (("list", "ndarray", "series_perm", "series_shift") if mode == "halflev" else ("list",))):
+                            _one_self(acc, eng, seqs, k, mode, out, cont, expected)
+    elif kind == "self-sparse":
+        # larger radii on a sparse collection (pairs exactly 3 and 4 edits apart) in every container
+        seqs = case[1]
+        acc.cls("radius-3-and-4-in-every-container")
+        for k in (3, 4):
+            for mode in ("lev", "hamming"):
+                expected = expected_for(seqs, k, mode)
+                for eng in ("nearest_neighbor", "symdel", "kdtree"):
+                    for out in OUTPUTS:
+                        for cont in CONTAINERS:
                             _one_self(acc, eng, seqs, k, mode, out, cont, expected)
     elif kind == "maxret":
         # kdtree with max_returns gives an asymmetric neighbour list: matrix outputs must hold d at [r, q] of exactly the triplets
@@ -292,8 +307,11 @@ def check_case(case, acc):
         k = kw.pop("max_edits", 1)
         import pyrepseq
         acc.cls("invalid-argument")
-        boxed = box(seqs, cont) if cont != "ndarray" or all(isinstance(s, str) for s in seqs) else __import__("numpy").array(list(seqs), dtype=object)
-        for hm in (False, True):
+        variants = [seqs] + ([("AC",)] if "seqs" not in spec else [])       # the same invalid argument with a lone sequence
+        for seqs, hm in [(sv, h) for sv in variants for h in (False, True)]:
+            boxed = box(seqs, cont) if cont != "ndarray" or all(isinstance(s, str) for s in seqs) else __import__("numpy").array(list(seqs), dtype=object)
+            if len(seqs) == 1:
+                acc.cls("invalid-argument-with-a-lone-sequence")
             kw2 = dict(kw)
             if hm:
                 if "custom_distance" in kw2:
@@ -306,7 +324,7 @@ def check_case(case, acc):
             if raised(res):
                 acc.ok((eng, name, res.type, hm))
             else:
-                acc.fail("%s/invalid-argument-accepted/%s%s" % (eng, name, "/hamming-mode" if hm else ""), case, "an exception", digest(res) if not hasattr(res, "shape") else "matrix %s" % (res.shape,))
+                acc.fail("%s/invalid-argument-accepted/%s%s%s" % (eng, name, "/hamming-mode" if hm else "", "/lone-sequence" if len(seqs) == 1 else ""), case, "an exception", digest(res) if not hasattr(res, "shape") else "matrix %s" % (res.shape,))
                 return
     elif kind == "invalid2":
         _, eng, cont = case
